@@ -63,7 +63,8 @@ func runProtocol(rc *core.RunCtx) {
 		}
 	}
 	for i := 1; i <= nn; i++ {
-		id := fmt.Sprintf("P%d", i)
+		// ids that are string prefixes of one another: different nodes all the same
+		id := []string{"", "P1", "P10", "P100", "P2"}[i]
 		cfg := hcluster.NewSelfManagedConfig()
 		var boots []*node
 		for _, o := range w.nodes {
@@ -96,7 +97,7 @@ func runProtocol(rc *core.RunCtx) {
 	for op := 0; op < nops; op++ {
 		live := w.live()
 		at := live[g.IntN(len(live))]
-		switch g.Pick(6, 2, 2, 1, 2, 2) {
+		switch g.Pick(6, 3, 2, 1, 2, 2, 2) {
 		case 0: // at hears the announcement of another node and handshakes it
 			o := live[g.IntN(len(live))]
 			if o == at {
@@ -116,6 +117,11 @@ func runProtocol(rc *core.RunCtx) {
 				if o != at && model[at.id][o.id] {
 					cands = append(cands, o)
 				}
+			}
+			if model[at.id][at.id] && g.Bool(0.15) {
+				// the node's own address is reported (it is a member of its own list):
+				// it leaves its own list, possibly leaving it empty
+				cands = []*node{at}
 			}
 			if len(cands) == 0 {
 				continue
@@ -164,6 +170,21 @@ func runProtocol(rc *core.RunCtx) {
 			settle(time.Second)
 			// joined, then left: both reached the provider in that order
 			check("handshake-then-unreachable")
+		case 6: // a stale peer pings, at this node's address, the provider of another node id
+			var other string
+			for _, o := range w.nodes {
+				if o != at && (other == "" || strings.HasPrefix(at.id, o.id)) {
+					other = o.id
+				}
+			}
+			if other == "" {
+				continue
+			}
+			rc.Scen("op%d: a message for provider/%s arrives at %s (%s): a dead letter there, nothing else", op, other, at.id, at.addr)
+			simrt.Fault("stale-ping-for-other-provider-id")
+			at.c.Engine().Send(actor.NewPID(at.addr, "provider/"+other), &actor.Ping{})
+			settle(time.Second)
+			check("stale-ping")
 		case 5: // a peer is lost at one address and comes back under the same id from another one
 			fid := fmt.Sprintf("R%d", op)
 			h1, h2 := fmt.Sprintf("10.88.1.%d:4000", op+1), fmt.Sprintf("10.88.2.%d:4000", op+1)
